@@ -592,8 +592,19 @@ pub fn gen_wide_dag(rng: &mut Rng, p: &DagParams, leaves: usize) -> Dag {
         let body = gen_body(rng, p);
         d.nodes.push(Node { parents: vec![i], prio: Priority::Basic(rng.below(p.prios as u64) as u32), body });
     }
-    for _ in 0..leaves {
-        let parent = rng.below(spine as u64 + 1) as usize;
+    // two modes: leaves spread uniformly over the spine, or (2 in 3) nearly all at the top of the
+    // spine with one or two stragglers lower down (the common ancestor of most heads is then high
+    // and only the stragglers pull it down)
+    let skew = rng.chance(2, 3);
+    let low = if skew { rng.range(1, 2) as usize } else { 0 };
+    for i in 0..leaves {
+        let parent = if !skew {
+            rng.below(spine as u64 + 1) as usize
+        } else if i < low {
+            rng.below(spine as u64) as usize
+        } else {
+            spine
+        };
         let body = gen_body(rng, p);
         d.nodes.push(Node { parents: vec![parent], prio: Priority::Basic(rng.below(p.prios as u64) as u32), body });
     }
